@@ -165,7 +165,9 @@ def mutations(ep, adesc, outcome, args, salt):
             pre = "Bearer " if kind == "auth" else "sid="
             return [{"op": "set_header", "name": hname, "bytes": list((pre + tok).encode()) + [[0xff], list("\u00e9".encode()), [0xe9]][salt % 3]}], None
         if outcome == "nodelim":
-            return [{"op": "set_header", "name": hname, "value": [tok, ("Bearer" if kind == "auth" else "sid") + tok, tok + tok][salt % 3]}], None
+            # ... and values shorter than the scheme prefix itself (empty, the bare scheme word, a fragment of it)
+            short = ["", "Bearer", "Bear", "B"] if kind == "auth" else ["", "sid", "a=b", "s"]
+            return [{"op": "set_header", "name": hname, "value": ([tok, ("Bearer" if kind == "auth" else "sid") + tok, tok + tok] + short)[salt % 7]}], None
         if outcome == "badprefix":
             return [{"op": "set_header", "name": hname, "value": ("Basic " if kind == "auth" else "other=") + tok}], None
         # not a token: a blank and foreign characters, data after the padding, padding first
